@@ -42,7 +42,7 @@ ArgsOf(a) == [a EXCEPT !.body = B(a.body)]
 EvOf(e) == [op |-> e.op, key |-> e.key, body |-> B(e.body), xa |-> XaOf(e.xa), json |-> e.json,
             xf |-> e.xf, cas |-> e.cas, exp |-> e.exp, rev |-> e.rev, coll |-> e.coll]
 EvsOf(s) == IF Len(s) = 0 THEN <<>> ELSE [i \in 1..Len(s) |-> EvOf(s[i])]
-ReturnsCas == {"WriteCas", "Remove", "Update", "SetXattrs", "UpdateXattrs", "WriteWithXattrs",
+ReturnsCas == {"UpdateXattrDeleteBody", "WriteCas", "Remove", "Update", "SetXattrs", "UpdateXattrs", "WriteWithXattrs",
                "WriteTombstoneWithXattrs", "WriteResurrectionWithXattrs", "WriteUpdateWithXattrs",
                "WriteSubDoc", "Touch", "GetAndTouchRaw", "Get", "GetRaw", "GetSubDocRaw"}
 
